@@ -22,7 +22,8 @@ for pid in props:
     earlier = []
     for mf in sorted(glob.glob('/verif/seeded/%s-*/meta.json' % pid)):
         m = json.load(open(mf))
-        need = re.sub(r'\s*\(missed by the first version[^)]*\)', '', m.get('needs_to_manifest', '')).strip()
+        need = re.sub(r'\s*\(missed by the first version[^)]*\)', '', m.get('needs_to_manifest', ''))
+        need = re.sub(r'[;,.]?\s*(\(?missed by|\(?caught after|\(?caught since).*$', '', need, flags=re.S).strip()
         if need:
             earlier.append(need)
     if earlier:
